@@ -9,11 +9,17 @@
 (* "acked".                                                                   *)
 (* Algo = "refresh": resend() takes one status refresh after raising CE       *)
 (*        (the repaired code);  Algo = "stale": the code before the repair.   *)
+(* Queued / Reload: a TX FIFO left full by write(write_only=True) uploads is   *)
+(*        invisible in the cached STATUS; write() inside send() then refuses   *)
+(*        the payload.  Reload = FALSE (code before the repair): send() polls  *)
+(*        for ever - TLC refutes Termination; Reload = TRUE: flush, upload.    *)
 EXTENDS Integers, Sequences, FiniteSets, TLC
 CONSTANTS ARC,        \* automatic retransmissions per forced attempt
           MaxFR,      \* force_retry values explored: 0..MaxFR
           MaxCalls,
-          Algo
+          Algo,
+          Queued,     \* TRUE: the application may first fill the TX FIFO with write(write_only=True) uploads (CE low)
+          Reload      \* TRUE: send() flushes and uploads again when write() refused the payload (the repaired code)
 Fates == {"lost", "acklost", "acked"}
 
 VARIABLES
@@ -49,8 +55,16 @@ SFlush == /\ pc = "s_flush"
 SClear == /\ pc = "s_clear" /\ st' = Snap /\ txds' = FALSE /\ maxrt' = FALSE
           /\ busy' = Kick(fifo, FALSE, ce, busy)
           /\ pc' = "s_load" /\ UNCHANGED <<call, ncalls, result, fifo, arcCnt, ce, nextPid, peer, lastRx, air, failed>>
+\* three write(write_only=True) uploads with CE low: nothing is sent; the STATUS the driver holds afterwards was clocked out
+\* before the third upload executed - it does not show TX_FULL
+QueueFull == /\ Queued /\ pc = "idle" /\ ncalls = 0 /\ fifo = <<>> /\ ce' = FALSE
+             /\ fifo' = <<<<101, 1>>, <<102, 2>>, <<103, 3>>>> /\ nextPid' = 1
+             /\ st' = [ds |-> FALSE, fail |-> FALSE, full |-> FALSE]
+             /\ UNCHANGED <<pc, call, ncalls, result, txds, maxrt, busy, arcCnt, peer, lastRx, air, failed>>
 SLoad == /\ pc = "s_load"
-         /\ IF st.full THEN pc' = "s_wait" /\ UNCHANGED <<st, fifo, nextPid, ce, busy, arcCnt>>
+         /\ IF st.full /\ Reload THEN /\ st' = Snap /\ fifo' = <<>> /\ busy' = FALSE /\ pc' = "s_clear"     \* flush_tx(); write() again
+                                       /\ UNCHANGED <<nextPid, ce, arcCnt>>
+            ELSE IF st.full THEN pc' = "s_wait" /\ UNCHANGED <<st, fifo, nextPid, ce, busy, arcCnt>>
             ELSE /\ st' = Snap /\ fifo' = Append(fifo, <<call.buf, nextPid>>) /\ nextPid' = (nextPid % 3) + 1
                  /\ ce' = TRUE /\ busy' = Kick(Append(fifo, <<call.buf, nextPid>>), maxrt, TRUE, busy)
                  /\ arcCnt' = (IF ~busy THEN 0 ELSE arcCnt) /\ pc' = "s_wait"
@@ -71,6 +85,7 @@ SEval == /\ pc = "s_eval"
 
 \* ---------------- driver: resend() (also the body of the force_retry loop)
 CallResend == /\ pc = "idle" /\ ncalls < MaxCalls /\ ncalls' = ncalls + 1 /\ result' = "none"
+              /\ (Queued => ncalls > 0)          \* (with uploads of the application waiting, resend() would rightly send those)
               /\ call' = [op |-> "resend", buf |-> failed, fr |-> 0] /\ pc' = "r_fifo"
               /\ UNCHANGED <<st, fifo, txds, maxrt, busy, arcCnt, ce, nextPid, peer, lastRx, air, failed>>
 \* if self.fifo(True, True): return False
@@ -105,7 +120,7 @@ Attempt(f) ==
      /\ (f = "acked" => maxrt' = maxrt)
   /\ UNCHANGED <<pc, call, st, ncalls, result, ce, nextPid, failed>>
 
-Driver == (\E fr \in 0..MaxFR : CallSend(fr)) \/ CallResend \/ SFlush \/ SClear \/ SLoad \/ SWait \/ SEval
+Driver == QueueFull \/ (\E fr \in 0..MaxFR : CallSend(fr)) \/ CallResend \/ SFlush \/ SClear \/ SLoad \/ SWait \/ SEval
           \/ RFifo \/ RClear \/ RRefresh \/ RWait \/ REval
 Next == Driver \/ (\E f \in Fates : Attempt(f))
 Spec == Init /\ [][Next]_vars
